@@ -195,6 +195,20 @@ class ReqNil:
     opt: Optional[int] = field(default=None, metadata={"type": "Element"})
 
 
+@dataclass(kw_only=True)
+class SameName:
+    """sibling fields that share ONE element name and are told apart by position (the parser remembers which of
+    them are taken): the first occurrence is the first field, the second the second, ..."""
+
+    class Meta:
+        namespace = NS_A
+
+    first: str = field(metadata={"type": "Element", "name": "item", "xv_values": ["t", "a b", "0", "x-y"]})
+    second: int = field(metadata={"type": "Element", "name": "item"})
+    third: Optional[XmlDate] = field(default=None, metadata={"type": "Element", "name": "item"})
+    other: Optional[str] = field(default=None, metadata={"type": "Element"})
+
+
 @dataclass
 class UnionEl:
     """elements typed with a union of a model and primitives (UnionNode: candidates are replayed and scored)."""
@@ -238,8 +252,8 @@ class Order:
     any_attr: Optional[object] = field(default=None, metadata={"type": "Element", "name": "anyType"})
 
 
-ROOTS = [Leaf, Item, Holder, QNames, Prims, Seq, Compound, ReqNil, UnionEl, UnionModels, Wild, Mixed, Order]
-ALL = [Leaf, Item, Base, Derived, Holder, QNames, Prims, Seq, Compound, ReqNil, Amount, Label, UnionEl, UnionModels, Wild, Mixed, Order]
+ROOTS = [Leaf, Item, Holder, QNames, Prims, Seq, Compound, ReqNil, SameName, UnionEl, UnionModels, Wild, Mixed, Order]
+ALL = [Leaf, Item, Base, Derived, Holder, QNames, Prims, Seq, Compound, ReqNil, SameName, Amount, Label, UnionEl, UnionModels, Wild, Mixed, Order]
 
 HOSTILE_MAPS: list[dict | None] = [
     None,
